@@ -115,6 +115,7 @@ def entry_parse_check(ctx, res, rule):
     # decided on bytes: blocks laid out by an independent encoder of the format, read by the real iterator (rules/readrule.py)
     from . import readrule
     readrule.blocks(ctx, res, rule)
+    readrule.seeks(ctx, res, rule)
     # the reader takes `shared` from the file: nobody outside the builder reads its restart interval
     readers = set(g.name for g in prog.lib_funcs() for x in walk(g.body)
                   if x["k"] == "MemberExpr" and x.get("rec") == "block_builder" and x["field"] == "block_restart_interval")
@@ -191,36 +192,12 @@ def restart_width_check(ctx, res, rule):
                   "size estimate for a %s block is %s + %d" % ("large" if large else "small", t, c), est.loc(est.body), p.describe(est))
     if nest < 2:
         res.bad(rule, site(est, "estimate"), "size estimate has %d case(s), expected one per restart width" % nest, est.loc(est.body))
-    rv = prog.record("uint64_vec__vector", BB)
-    # reader side
-    conds = [canon(B.cond) for B in cond_blocks(bi)]
-    res.check("(b->restart_offset>#%d)" % U32 in conds, rule, site(bi, "threshold"), "reader re-interprets restarts as 64-bit under the same threshold",
-              "block_init thresholds are %s" % conds, bi.loc(bi.body))
-    st = [canon(n["kids"][1]) for n, lhs in field_stores(bi, "block", "restart_offset")]
-    want = ["(size-((#1+num_restarts(b))*#4))", "(size-(#4+(num_restarts(b)*#8)))"]
-    res.check(st == want, rule, site(bi, "restart_offset"), "restart array start = size - (1+n)*4, or size - (4 + n*8) when large",
-              "block_init computes the restart array start as %s" % st, bi.loc(bi.body))
-    ev = APE.run(prog, cg, grp, bound=APE.BOUND)
-    for p in ev.paths:
-        if p.end != "exit":
-            continue
-        large = None
-        for (a, b), v in p.cons.items():
-            if re.match(r"^bi->restarts@\d+$", a) and b == "#%d" % U32:
-                large = v == frozenset((GT,))
-        dec = [e for e in p.events if e.kind == "call" and e.a.startswith("mtbl_fixed_decode")]
-        if large is None or len(dec) != 1:
-            res.bad(rule, site(grp, "width"), "restart point decoding not recognised", grp.loc(grp.body), p.describe(grp))
-            continue
-        w = 8 if dec[0].a.endswith("64") else 4
-        arg = re.sub(r"@\d+", "", APE.vstr(dec[0].b[0]))
-        good = (w == 8) == large and arg == "((bi->data+bi->restarts)+(idx*#%d))" % w
-        res.check(good, rule, site(grp, "width:%s" % ("large" if large else "small")), "restart i is u%dle at restarts + i*%d" % (w * 8, w),
-                  "restart point read as %d bytes at %s for a %s block" % (w, arg, "large" if large else "small"), grp.loc(grp.body), p.describe(grp))
-    nr = prog.need("num_restarts", BL)
-    rets = [canon(kids(n)[0]) for n in walk(nr.body) if n["k"] == "ReturnStmt"]
-    res.check(rets == ["mtbl_fixed_decode32(((b->data+b->size)-#4))"], rule, site(nr, "count"), "restart count is the u32le in the block's last four bytes",
-              "restart count read from %s" % rets, nr.loc(nr.body))
+    # reader side: how block_init finds the restart array (32-bit words up to an entries region of 2^32 - 1 bytes, 64-bit words
+    # above), how restart points and their count are read: decided on bytes by rules/readrule.py - blocks laid out by an
+    # independent encoder, including sparse blocks beyond 4 GiB, iterated and searched by the real code
+    from . import readrule
+    readrule.blocks(ctx, res, rule)
+    readrule.seeks(ctx, res, rule)
 
 
 def frame_sites(ctx):
